@@ -311,6 +311,30 @@ def big_listing_family(run, binary, tmp):
                 shutil.rmtree(root, ignore_errors=True)
 
 
+def huge_remote_source_family(run, binary, tmp):
+    """The destination fails early in a file whose REMOTE source is enormous (a sparse file of 300 GiB): after the failure the boss must
+    stop the source doer - it must not wait for (or read through) the rest of the file, whose transfer would take hours.  The time to
+    hand control back is bounded by the fault, not by how much data the source still has."""
+    fake = e2e.fake_ssh_dir(tmp)
+    root = tempfile.mkdtemp(prefix='hr_', dir=tmp)
+    try:
+        os.makedirs(os.path.join(root, 's'))
+        with open(os.path.join(root, 's', 'huge.bin'), 'wb') as f:
+            f.truncate(300 * 1024 ** 3)
+        t0 = time.time()
+        r = e2e.run_cli(binary, ['localhost:' + os.path.join(root, 's') + '/', os.path.join(root, 'd') + '/'], fake_ssh=fake, timeout=60, ulimit_f=8192)
+        run.count('huge-remote-source:exit:%s' % ('hang' if r['timed_out'] else r['exit']))
+        run.case(('huge-remote-source',), True, sample={'source_bytes': 300 * 1024 ** 3, 'dest_limit_bytes': 8192 * 512, 'exit': r['exit'], 'wall_s': round(time.time() - t0, 1)})
+        run.traces_validated += 1
+        if r['timed_out']:
+            run.fail('C09 oracle: the destination failed 4 MiB into a 300 GiB file read from a remote source and the run did not hand control back within the watchdog (60 s)',
+                     {'family': 'huge-remote-source'})
+        elif r['exit'] == 0:
+            run.fail('C09 oracle: a destination write failure and the run exited 0', {'family': 'huge-remote-source', 'text': (r['stdout'] + r['stderr'])[-300:]})
+    finally:
+        shutil.rmtree(root, ignore_errors=True)
+
+
 def check(run, only=None):
     run.trusted = list(vlib.COMMON_TRUSTED) + [
         'modelled, not verified: crossbeam channel (FIFO, disconnect on drop), std::thread join/panic semantics, TCP and the kernel socket buffers, ssh',
@@ -389,6 +413,7 @@ def check(run, only=None):
             RS.family(run, binary, jremote, tmp)
             listing_fault_family(run, binary, tmp)        # (7) a directory that cannot be listed, on either side, local or remote
             big_listing_family(run, binary, tmp)          # (8) listings many times larger than the channel capacity
+            huge_remote_source_family(run, binary, tmp)   # (9) an early destination failure in an enormous file from a remote source
     finally:
         shutil.rmtree(tmp, ignore_errors=True)
     run.extra['e2e_wall_s'] = round(time.time() - t0, 1)
